@@ -100,7 +100,7 @@ impl Stringify for Template {
             stringifier.write_str(r#"="#)?;
             stringifier.write_str_name_quoted(&t.name)?;
             let nodes = &t.content;
-            if nodes.len() > 0 {
+            if !is_children_empty(nodes) {
                 stringifier.write_str(r#">"#)?;
                 for node in nodes {
                     node.stringify_write(stringifier)?;
@@ -162,6 +162,10 @@ fn is_children_empty(children: &[Node]) -> bool {
     for n in children {
         match n {
             Node::Comment(..) => {}
+            // (a text that prints as nothing, `{{ "" }}`, leaves nothing to read back)
+            Node::Text(Value::Static { value, .. }) if value.is_empty() => {}
+            Node::Text(Value::Dynamic { expression, .. })
+                if matches!(&**expression, Expression::LitStr { value, .. } if value.is_empty()) => {}
             Node::Element(..) | Node::Text(..) | Node::UnknownMetaTag(..) => {
                 return false;
             }
